@@ -429,8 +429,17 @@ def construction_functions(cx: Ctx) -> list[FuncInfo]:
                 via_param.setdefault(f, []).extend(cx.callbacks[(f.fq, c.func.id)])
     has = {f: bool(cx.sink_events(f)) for f in reach}
     keep = {f for f in reach if has[f]}
+    # fields in which the constructor keeps the raw module list / import list
+    me = cx.init.param_names[0]
+    raw_fields = {
+        t.attr for n in own_nodes(cx.init.node) if isinstance(n, (ast.Assign, ast.AnnAssign)) and isinstance(n.value, ast.Name) and n.value.id in (cx.modules_param, cx.imports_param)
+        for t in (n.targets if isinstance(n, ast.Assign) else [n.target]) if isinstance(t, ast.Attribute) and isinstance(t.value, ast.Name) and t.value.id == me
+    }
     if keep:
         fields = {f: _self_fields(f) for f in reach}
+        # methods that produce what the construction consumes from those fields (`for step in self._construction_steps(): ...`)
+        producers = {f for f in reach if f not in keep and f.cls is not None and any(c == cx.g for c in cx.repo.mro(f.cls)) and fields[f][1] & raw_fields and not fields[f][0]}
+        keep |= {f for f in producers if any(f in callees_of(cx.repo, k, byname=False) for k in reach if k is not f)}
         for _ in range(3):
             wanted = set().union(*[fields[f][1] for f in keep])
             more = {f for f in reach if f not in keep and f.cls is not None and f.name != "__init__" and fields[f][0] & wanted}
@@ -968,6 +977,10 @@ class LoopFlow(Flow):
 
     def _expr_inner(self, fi: FuncInfo, e: ast.expr, env: dict):
         t = super()._expr_inner(fi, e, env)
+        if isinstance(e, ast.Attribute) and not t and not (isinstance(parent(e), ast.Call) and parent(e).func is e):
+            # a field of a record whose construction lies outside the analysed functions (`step.node` of a NamedTuple yielded by a
+            # module-level generator): the record holds what it was derived from
+            t = self.node_tags.get(id(e.value), frozenset())
         if isinstance(e, ast.Attribute) and ast.unparse(e) in env:
             # the function assigned this field itself (`self._nodes = {}`), and the base engine then reads the local value only; methods
             # called in between may have filled the field (`self._initialise()` records into the ledger): join what the field holds
